@@ -722,14 +722,16 @@ var extraShapes = os.Getenv("C02_EXTRA") != "0"
 var solveFaults = os.Getenv("C02_SOLVE_FAULTS") != "0"
 
 // relaxGroups (C02_RELAX_GROUPS=0 switches it off): a pod that carries a spread constraint AND can be relaxed in a way that changes
-// its node filter (several OR-ed node-affinity terms, or a PreferNoSchedule pool it does not tolerate). Update then
+// its node filter (several OR-ed node-affinity terms, or a PreferNoSchedule pool). Update then
 // creates a new spread group in the middle of the pass, which misses the pods placed earlier (reported, key
 // kfRelaxGroup, a known finding). The normalised core case (single term / NoSchedule taint) is run unkeyed next to it.
 var relaxGroups = os.Getenv("C02_RELAX_GROUPS") != "0"
 
 func relaxGroupShape(sc sCase) bool {
 	pns := lo.SomeBy(sc.Pools, func(p sPool) bool { return p.PreferNoSchedule })
-	return lo.SomeBy(sc.Batch, func(p sPod) bool { return len(p.Spread) > 0 && (len(p.ZoneTerms) > 0 || (pns && !p.Tolerates)) })
+	// the PreferNoSchedule relaxation appends its own toleration (operator Exists, effect PreferNoSchedule, no key) unless the
+	// pod already has exactly that one, so it also changes the node filter of pods that tolerate the taint by key
+	return lo.SomeBy(sc.Batch, func(p sPod) bool { return len(p.Spread) > 0 && (len(p.ZoneTerms) > 0 || pns) })
 }
 
 func normaliseRelaxGroups(sc sCase) sCase {
